@@ -3,8 +3,8 @@
    hash model in Model.PyHash. *)
 From Coq Require Import String ZArith List Bool Permutation.
 From Model Require Import PyBase Graph PyHash Fingerprint FingerprintCGR LinearSmiles FingerprintVec MorganSmiles LinearSpell LinearSmilesFull ChainsTrace.
-From Proofs Require Import FingerprintProofs FingerprintCGRProofs MorganNbhd MorganNbhdCGR LinearSmilesProofs LinearSmilesFixed FingerprintVecProofs MorganSmilesProofs LinearSpellProofs FingerprintConstsProofs ChainsTraceProofs.
-From Gen Require Import FingerprintConsts.
+From Proofs Require Import FingerprintProofs FingerprintCGRProofs MorganNbhd MorganNbhdCGR LinearSmilesProofs LinearSmilesFixed FingerprintVecProofs MorganSmilesProofs LinearSpellProofs FingerprintConstsProofs ChainsTraceProofs FingerprintBodiesProofs FingerprintBodiesVec FingerprintBodiesSmiles.
+From Gen Require Import FingerprintConsts FingerprintBodies.
 Import ListNotations.
 Open Scope Z_scope.
 
@@ -834,3 +834,207 @@ Theorem C17_example_initial_order :
   set_paths (chains ex_mol 1 3).
 Proof. exact example_initial_order. Qed.
 Print Assumptions C17_example_initial_order.
+
+(* ==================================================================================================== *)
+(* ROUND 4 (1): TIE BY TRANSLATION.  The BODIES of _chains, _fragments, linear_hash_set, linear_bit_set, _morgan_hash_dict,
+   morgan_hash_set and morgan_bit_set are translated statement by statement from /repo's source on every run
+   (tools/gen_fpbodies.py -> Gen.FingerprintBodies: g_chains / g_chains_while, g_fragments, g_linear_hash_set, g_linear_bit_set,
+   g_morgan_hash_dict, g_morgan_hash_set, g_morgan_bit_set) and proved EQUAL to the hand-written model, for all arguments.  Every
+   theorem above about chains_seq_loop / fragments_of / linear_hashes / bit_list / morgan_hash_dict_with ... is thereby a theorem about
+   the translated source text. *)
+
+(* _chains: the translated function (while loop with fuel) IS the modelled deque loop; with the model's fuel it terminates with the
+   enumeration the path theorems are about, and no fuel gives another value *)
+Theorem C17_translated_chains : forall fuel g lo hi, g_chains fuel g lo hi = chains_seq_loop fuel g lo hi.
+Proof. exact g_chains_eq. Qed.
+Print Assumptions C17_translated_chains.
+
+Theorem C17_translated_chains_total : forall g lo hi, wf_mol g = true ->
+  g_chains (chains_fuel g hi) g lo hi = Some (chains_seq g lo hi) /\
+  (forall fuel r, g_chains fuel g lo hi = Some r -> r = chains_seq g lo hi).
+Proof. exact (fun g lo hi W => conj (g_chains_total g lo hi W) (fun fuel r => g_chains_any_fuel g lo hi fuel r W)). Qed.
+Print Assumptions C17_translated_chains_total.
+
+(* _fragments, for any identifier dictionary and any sequence of non-empty chains (frag[0] of an empty tuple is an IndexError) *)
+Theorem C17_translated_fragments : forall g idd chs lo hi, Forall (fun p => p <> []) chs ->
+  g_fragments g idd chs lo hi = fragments_of (ident idd) (bond_order g) chs.
+Proof. exact g_fragments_eq. Qed.
+Print Assumptions C17_translated_fragments.
+
+Theorem C17_translated_linear_hash_set : forall h frs lo hi nbp, g_linear_hash_set h frs lo hi nbp = linear_hashes h nbp frs.
+Proof. exact g_linear_hash_set_eq. Qed.
+Print Assumptions C17_translated_linear_hash_set.
+
+(* the folding loops, incl. ValueError of log2 for length <= 0 and its position before the call of morgan_hash_set *)
+Theorem C17_translated_bit_sets : forall len nab,
+  (forall hs lo hi nbp, g_linear_bit_set hs lo hi len nab nbp = bit_list len nab hs) /\
+  (forall r lo hi, g_morgan_bit_set r lo hi len nab = bit_list_of len nab r).
+Proof. exact (fun len nab => conj (fun hs lo hi nbp => g_linear_bit_set_eq hs lo hi len nab nbp)
+                                   (fun r lo hi => g_morgan_bit_set_eq r lo hi len nab)). Qed.
+Print Assumptions C17_translated_bit_sets.
+
+(* _morgan_hash_dict (asserts, iteration, slice) for any hash, any identifier dictionary; morgan_hash_set *)
+Theorem C17_translated_morgan_hash_dict : forall h g idd lo hi,
+  g_morgan_hash_dict h g idd lo hi = morgan_hash_dict_with h idd g lo hi.
+Proof. exact g_morgan_hash_dict_eq. Qed.
+Print Assumptions C17_translated_morgan_hash_dict.
+
+Theorem C17_translated_morgan_hash_set : forall r lo hi,
+  g_morgan_hash_set r lo hi = match r with Ok ds => Ok (flat_map (map snd) ds) | Err e => Err e end.
+Proof. exact g_morgan_hash_set_eq. Qed.
+Print Assumptions C17_translated_morgan_hash_set.
+
+(* the translated functions composed as the methods call each other are the top-level model functions (molecules; `_with`: any
+   identifier dictionary, i.e. FingerprintsCGR on the skeleton) *)
+Theorem C17_translated_linear_pipeline : forall h g lo hi len nab nbp, wf_mol g = true ->
+  exists adds, g_chains (chains_fuel g hi) g lo hi = Some adds /\
+    let chs := dedup_paths adds in
+    let frs := g_fragments g (atom_identifiers g) chs lo hi in
+    let hs := g_linear_hash_set h frs lo hi nbp in
+    chs = chains g lo hi /\ frs = fragments g lo hi /\ hs = linear_hash_list h g lo hi nbp /\
+    g_linear_bit_set hs lo hi len nab nbp = linear_bit_list h g lo hi len nab nbp.
+Proof. exact translated_linear_pipeline. Qed.
+Print Assumptions C17_translated_linear_pipeline.
+
+Theorem C17_translated_linear_pipeline_with : forall h idd g lo hi len nab nbp, wf_mol g = true ->
+  let frs := g_fragments g idd (chains g lo hi) lo hi in
+  let hs := g_linear_hash_set h frs lo hi nbp in
+  frs = fragments_with idd g lo hi /\ hs = linear_hashes h nbp (fragments_with idd g lo hi) /\
+  g_linear_bit_set hs lo hi len nab nbp = bit_list len nab (linear_hashes h nbp (fragments_with idd g lo hi)).
+Proof. exact translated_linear_pipeline_with. Qed.
+Print Assumptions C17_translated_linear_pipeline_with.
+
+Theorem C17_translated_morgan_pipeline : forall h g lo hi len nab,
+  let ds := g_morgan_hash_dict h g (atom_identifiers g) lo hi in
+  let hs := g_morgan_hash_set ds lo hi in
+  ds = morgan_hash_dict h g lo hi /\ hs = morgan_hash_list h g lo hi /\
+  g_morgan_bit_set hs lo hi len nab = morgan_bit_list h g lo hi len nab.
+Proof. exact translated_morgan_pipeline. Qed.
+Print Assumptions C17_translated_morgan_pipeline.
+
+Theorem C17_translated_morgan_pipeline_with : forall h idd g lo hi len nab,
+  let ds := g_morgan_hash_dict h g idd lo hi in
+  let hs := g_morgan_hash_set ds lo hi in
+  ds = morgan_hash_dict_with h idd g lo hi /\
+  hs = match morgan_hash_dict_with h idd g lo hi with Ok ds => Ok (flat_map (map snd) ds) | Err e => Err e end /\
+  g_morgan_bit_set hs lo hi len nab =
+    bit_list_of len nab (match morgan_hash_dict_with h idd g lo hi with Ok ds => Ok (flat_map (map snd) ds) | Err e => Err e end).
+Proof. exact translated_morgan_pipeline_with. Qed.
+Print Assumptions C17_translated_morgan_pipeline_with.
+
+(* non-vacuity: the translated code evaluated on 2-propanol (chython's values), out-of-fuel, AssertionError, ValueError *)
+Theorem C17_translated_example :
+  wf_mol ex_mol = true /\
+  g_chains 100 ex_mol 2 3 = Some [[2; 1]; [2; 1]; [3; 2]; [4; 2]; [3; 2]; [4; 2]; [3; 2; 1]; [4; 2; 1]; [3; 2; 1]; [4; 2; 3]; [4; 2; 1]; [4; 2; 3]] /\
+  g_chains 5 ex_mol 2 3 = None /\
+  List.length (g_fragments ex_mol (atom_identifiers ex_mol) (chains ex_mol 1 3) 1 3) = 6%nat /\
+  g_morgan_hash_set (g_morgan_hash_dict hash_ztuple ex_mol (atom_identifiers ex_mol) 1 2) 1 2 =
+    Ok [-3850700631077715909; -3850700631077715909; -3850700631077715909; 3311492739671872531;
+        6744783386241714987; -713217080876991613; 6744783386241714987; -5079278463555148377] /\
+  g_morgan_hash_dict hash_ztuple ex_mol (atom_identifiers ex_mol) 0 2 = Err OtherError /\
+  g_morgan_bit_set (Ok [-5079278463555148377]) 1 2 1024 3 = Ok [423; 57; 136] /\
+  g_linear_bit_set [-5079278463555148377] 1 2 0 3 4 = Err ValueError.
+Proof. exact translated_example. Qed.
+Print Assumptions C17_translated_example.
+
+(* ---- translated: the numpy array functions, the identifier functions, int(DynamicBond) ---- *)
+(* Fingerprints._atom_identifiers, FingerprintsCGR._atom_identifiers and DynamicBond.__hash__ translated from the source (hash of the
+   tuple display = PyHash.tuple_hash_lanes over hash_int / hash_bool) are the identifier models *)
+Theorem C17_translated_identifiers :
+  (forall g, g_atom_identifiers g = atom_identifiers g) /\
+  (forall c, g_cgr_atom_identifiers c = cgr_atom_identifiers c) /\
+  (forall b, g_dynbond_int b = cbond_int b).
+Proof. exact (conj g_atom_identifiers_eq (conj g_cgr_atom_identifiers_eq g_dynbond_int_eq)). Qed.
+Print Assumptions C17_translated_identifiers.
+
+(* linear_fingerprint / morgan_fingerprint: zeros(length) + index assignment, over any bit-set result that is an error for length <= 0 *)
+Theorem C17_translated_fingerprint_arrays : forall r lo hi len nab, (len <= 0 -> exists e, r = Err e) ->
+  (forall nbp, g_linear_fingerprint r lo hi len nab nbp = vec_of len r) /\
+  g_morgan_fingerprint r lo hi len nab = vec_of len r.
+Proof. exact (fun r lo hi len nab H => conj (fun nbp => g_linear_fingerprint_eq r lo hi len nab nbp H)
+                                             (g_morgan_fingerprint_eq r lo hi len nab H)). Qed.
+Print Assumptions C17_translated_fingerprint_arrays.
+
+(* the whole call chains of the translated functions, from the identifiers to the array, are the top-level model functions that
+   C17_linear_fingerprint_spec / C17_morgan_fingerprint_spec / C17_cgr_fingerprint_spec and the rename / reorder theorems speak about *)
+Theorem C17_translated_linear_fingerprint : forall h g lo hi len nab nbp, wf_mol g = true ->
+  g_linear_fingerprint
+    (g_linear_bit_set (g_linear_hash_set h (g_fragments g (g_atom_identifiers g) (chains g lo hi) lo hi) lo hi nbp) lo hi len nab nbp)
+    lo hi len nab nbp
+  = linear_fingerprint h g lo hi len nab nbp.
+Proof. exact translated_linear_fingerprint. Qed.
+Print Assumptions C17_translated_linear_fingerprint.
+
+Theorem C17_translated_morgan_fingerprint : forall h g lo hi len nab,
+  g_morgan_fingerprint (g_morgan_bit_set (g_morgan_hash_set (g_morgan_hash_dict h g (g_atom_identifiers g) lo hi) lo hi) lo hi len nab)
+    lo hi len nab
+  = morgan_fingerprint h g lo hi len nab.
+Proof. exact translated_morgan_fingerprint. Qed.
+Print Assumptions C17_translated_morgan_fingerprint.
+
+Theorem C17_translated_cgr_fingerprints : forall h c lo hi len nab nbp, wf_cgr c = true ->
+  g_linear_fingerprint
+    (g_linear_bit_set (g_linear_hash_set h (g_fragments (cgr_skeleton c) (g_cgr_atom_identifiers c) (cgr_chains c lo hi) lo hi) lo hi nbp)
+       lo hi len nab nbp) lo hi len nab nbp
+  = cgr_linear_fingerprint h c lo hi len nab nbp /\
+  g_morgan_fingerprint
+    (g_morgan_bit_set (g_morgan_hash_set (g_morgan_hash_dict h (cgr_skeleton c) (g_cgr_atom_identifiers c) lo hi) lo hi) lo hi len nab)
+    lo hi len nab
+  = cgr_morgan_fingerprint h c lo hi len nab.
+Proof. exact translated_cgr_fingerprints. Qed.
+Print Assumptions C17_translated_cgr_fingerprints.
+
+Theorem C17_translated_vec_example :
+  g_linear_fingerprint (Ok [1; -1; 3]) 1 4 8 2 4 = Ok [0; 1; 0; 1; 0; 0; 0; 1] /\
+  g_morgan_fingerprint (Ok [8]) 1 4 8 2 = Err IndexError /\
+  g_morgan_fingerprint (Err ValueError) 1 4 0 2 = Err ValueError /\
+  g_dynbond_int (mkCBond (Some 1) None) = cbond_int (mkCBond (Some 1) None) /\
+  g_atom_identifiers ex_mol = atom_identifiers ex_mol.
+Proof. exact translated_vec_example. Qed.
+Print Assumptions C17_translated_vec_example.
+
+(* ---- translated: the SMILES dictionaries (with these, EVERY method of LinearFingerprint and MorganFingerprint is translated) ---- *)
+(* linear_hash_smiles over any fragment dictionary whose first chains are non-empty (fa / fb: the spelling of one atom / bond) *)
+Theorem C17_translated_linear_hash_smiles : forall fa fb h frs lo hi nbp,
+  Forall (fun e : list Z * list path => hd [] (snd e) <> []) frs ->
+  g_linear_hash_smiles fa fb h frs lo hi nbp = lhs_of fa fb h nbp frs.
+Proof. exact g_linear_hash_smiles_eq. Qed.
+Print Assumptions C17_translated_linear_hash_smiles.
+
+Theorem C17_translated_smiles_hash : forall lo hi,
+  (forall d nbp, g_linear_smiles_hash d lo hi nbp = smiles_hash_of d) /\
+  (forall r, g_morgan_smiles_hash r lo hi = match r with Ok d => Ok (smiles_hash_of d) | Err e => Err e end).
+Proof. exact (fun lo hi => conj (fun d nbp => g_linear_smiles_hash_eq d lo hi nbp) (fun r => g_morgan_smiles_hash_eq r lo hi)). Qed.
+Print Assumptions C17_translated_smiles_hash.
+
+(* morgan_hash_smiles: enumerate(..., min_radius - 1), augmented_substructure atom set = ball, canonical string = parameter cs *)
+Theorem C17_translated_morgan_hash_smiles : forall h cs g lo hi,
+  g_morgan_hash_smiles cs g (morgan_hash_dict h g lo hi) lo hi = morgan_hash_smiles h cs g lo hi.
+Proof. exact g_morgan_hash_smiles_eq. Qed.
+Print Assumptions C17_translated_morgan_hash_smiles.
+
+(* the call chains: for ANY sequence of non-empty chains (the iteration order of the chain set is the observed input of the
+   linear_hash_smiles model) and any identifier dictionary; Morgan: from the translated identifiers *)
+Theorem C17_translated_linear_smiles_pipeline : forall fa fb h idd g chs lo hi nbp, Forall (fun p => p <> []) chs ->
+  let d := g_linear_hash_smiles fa fb h (g_fragments g idd chs lo hi) lo hi nbp in
+  d = linear_hash_smiles_with fa fb h idd g chs nbp /\
+  g_linear_smiles_hash d lo hi nbp = smiles_hash_of (linear_hash_smiles_with fa fb h idd g chs nbp).
+Proof. exact translated_linear_smiles_pipeline. Qed.
+Print Assumptions C17_translated_linear_smiles_pipeline.
+
+Theorem C17_translated_morgan_smiles_pipeline : forall h cs g lo hi,
+  let d := g_morgan_hash_smiles cs g (g_morgan_hash_dict h g (g_atom_identifiers g) lo hi) lo hi in
+  d = morgan_hash_smiles h cs g lo hi /\ g_morgan_smiles_hash d lo hi = morgan_smiles_hash h cs g lo hi.
+Proof. exact translated_morgan_smiles_pipeline. Qed.
+Print Assumptions C17_translated_morgan_smiles_pipeline.
+
+Theorem C17_translated_smiles_example :
+  g_linear_smiles_hash [(5, ["C"; "O"]); (7, ["C"])]%string 1 4 4 = [("C", [5; 7]); ("O", [5])]%string /\
+  g_morgan_smiles_hash (Err OtherError) 0 4 = Err OtherError /\
+  g_linear_hash_smiles (fun n => if (n =? 4)%Z then "O" else "C")%string (fun _ _ => "-")%string hash_ztuple
+     (fragments ex_mol 2 2) 2 2 1 =
+  lhs_of (fun n => if (n =? 4)%Z then "O" else "C")%string (fun _ _ => "-")%string hash_ztuple 1 (fragments ex_mol 2 2) /\
+  map snd (g_linear_hash_smiles (fun n => if (n =? 4)%Z then "O" else "C")%string (fun _ _ => "-")%string hash_ztuple
+     (fragments ex_mol 2 2) 2 2 1) = [["C-C"]; ["O-C"]]%string.
+Proof. exact translated_smiles_example. Qed.
+Print Assumptions C17_translated_smiles_example.
